@@ -60,6 +60,17 @@ check("C13",
       "before/after, a second execution and a cloudpickle round trip; the event stream is validated by the stateful trace spec TraceExec.tla.",
       TB + " Content digests identify values.", "TLC scheduler model with fault actions + stateful trace validation of real executions", "DESIGN.md section 5 C13")
 
+check("C05",
+      "MC_Factorize (requested labels -> codes: slots are the sort contract, -1 iff missing/unrequested) and MC_Pipeline on the live registry's "
+      "min_count rows (absent slot and under-populated group receive the user's fill) are model-checked; Returns of real calls over labels x "
+      "expected_groups (sub/super/disjoint, sorted/unsorted) x sort x fill x min_count x 23 reductions x engines x eager|strategy|chunking are validated "
+      "by TraceReduce.tla. Two classes of genuine defects are listed as known findings (explicit min_count=0).",
+      TB, "TLC factorisation + pipeline models, trace validation of API returns", "DESIGN.md section 5 C05")
+check("C16",
+      "MC_Factorize!GroupsAreContract/CodesPointAtSlots and MC_Pipeline!InvLabels at design level; Returns for int/str/float+NaN labels x sort x "
+      "expected_groups x every strategy/chunking x numpy|dask labels validated by TraceReduce.tla (clauses groups / order / values).",
+      TB, "TLC factorisation model + trace validation of API returns (order and label->value pairing)", "DESIGN.md section 5 C16")
+
 ALL = [f"C{n:02d}" for n in range(1, 21)]
 
 def main():
